@@ -183,7 +183,16 @@ fn run(ctx: &Ctx, mode: &str) -> Report {
     report
 }
 
+
+fn fuzz_choices(v: &Value) -> Option<Vec<u16>> {
+    let b: Vec<u8> = serde_json::from_value(v.get("fuzz_bytes")?.clone()).ok()?;
+    Some(b.chunks(2).map(|c| u16::from_le_bytes([c[0], *c.get(1).unwrap_or(&0)])).collect())
+}
+
 fn replay(ctx: &Ctx, v: &Value) -> Result<String, String> {
+    if let Some(ch) = fuzz_choices(v) {
+        return check_history(&decode(&ch)).map(|_| "history conforms to the model".to_string());
+    }
     if v.get("history").is_some() {
         let h: History = serde_json::from_value(v["history"].clone()).map_err(|e| e.to_string())?;
         check_history(&h).map(|_| "history conforms to the model".to_string())
